@@ -364,12 +364,14 @@ func (b *c14Bracket) Write(p []byte) (int, error) {
 }
 
 type retSpy struct {
-	h      http.Header // what the client receives: frozen when the status goes out, the way a connection does it
-	live   http.Header // the map Header() keeps handing out after that (changes to it reach nobody)
-	status int
-	body   []byte
-	calls  int
-	failW  bool
+	h       http.Header // what the client receives: frozen when the status goes out, the way a connection does it
+	live    http.Header // the map Header() keeps handing out after that (changes to it reach nobody)
+	status  int
+	body    []byte
+	calls   int
+	failW   bool
+	early   []int // with interim set: informational statuses (1xx other than 101) sent ahead of the response, as net/http allows
+	interim bool
 }
 
 func (s *retSpy) Header() http.Header {
@@ -386,6 +388,10 @@ func (s *retSpy) commit() {
 	}
 }
 func (s *retSpy) WriteHeader(c int) {
+	if s.interim && s.status == 0 && c >= 100 && c <= 199 && c != 101 {
+		s.early = append(s.early, c)
+		return
+	}
 	s.calls++
 	if s.status == 0 {
 		s.status = c
